@@ -444,6 +444,48 @@ def _escapes(loop: ast.For, names, root) -> bool:
     return bool(found)
 
 
+def lower_reduce(stmts: list[ast.stmt]) -> list[ast.stmt]:
+    """x = reduce(f, xs, init)  /  return reduce(f, xs, init)   ->   acc = init; for v in xs: acc = f(acc, v); x = acc / return acc
+    (functools.reduce with an initial value, f a plain callable reference or a lambda)"""
+    counter = [0]
+
+    def lower(call):
+        if not (isinstance(call, ast.Call) and u(call.func) in ("reduce", "functools.reduce") and len(call.args) == 3 and not call.keywords):
+            return None
+        f, xs, init = call.args
+        if not (_attr_chain(f) is not None or isinstance(f, ast.Lambda)) or isinstance(xs, ast.Starred):
+            return None
+        counter[0] += 1
+        acc, v = f"acc_r{counter[0]}", f"v_r{counter[0]}"
+        step = ast.Call(func=f, args=[ast.Name(id=acc, ctx=ast.Load()), ast.Name(id=v, ctx=ast.Load())], keywords=[])
+        pre = [ast.Assign(targets=[ast.Name(id=acc, ctx=ast.Store())], value=init),
+               ast.For(target=ast.Name(id=v, ctx=ast.Store()), iter=xs, body=[ast.Assign(targets=[ast.Name(id=acc, ctx=ast.Store())], value=step)], orelse=[])]
+        return pre, ast.Name(id=acc, ctx=ast.Load())
+
+    def block(b):
+        out = []
+        for s_ in b:
+            if isinstance(s_, (ast.Assign, ast.AnnAssign, ast.Return)) and s_.value is not None:
+                r = lower(s_.value)
+                if r is not None:
+                    pre, val = r
+                    s_.value = val
+                    for x in pre:
+                        ast.copy_location(x, s_)
+                        ast.fix_missing_locations(x)
+                    out += pre + [s_]
+                    continue
+            for fld in ("body", "orelse", "finalbody"):
+                bb = getattr(s_, fld, None)
+                if isinstance(bb, list) and bb and isinstance(bb[0], ast.stmt) and not isinstance(s_, (ast.FunctionDef, ast.AsyncFunctionDef, ast.ClassDef)):
+                    setattr(s_, fld, block(bb))
+            out.append(s_)
+        return out
+    if not any(isinstance(n, ast.Call) and u(n.func) in ("reduce", "functools.reduce") for s_ in stmts for n in ast.walk(s_)):
+        return stmts
+    return block(list(stmts))
+
+
 def first_match_to_next(stmts: list[ast.stmt]) -> list[ast.stmt]:
     """for T in S: if C: return E   followed by   return D      ->      return next((E for T in S if C), D)
     (the first element passing the filter decides; D only when none does).  Function level: the loop is followed by the final return
